@@ -228,6 +228,29 @@ func (e *env) mkParty(name, kind, stateName, marker string) (*party, error) {
 		if p.state != nil {
 			p.opts = append(p.opts, nodeenrollment.WithState(p.state))
 		}
+	case "tokenDup":
+		// an already registered key presented with a fresh activation token: refused ("existing node"), whatever came before
+		n, err := srv.Enroll(name, nil)
+		if err != nil {
+			return nil, err
+		}
+		_, tok, err := registration.CreateServerLedActivationToken(w.Ctx, w.Store, &types.ServerLedRegistrationRequest{}, w.StorageOpts()...)
+		if err != nil {
+			return nil, err
+		}
+		fresh, err := types.NewNodeCredentials(w.Ctx, func() nodeenrollment.Storage { s, _ := inmem.New(w.Ctx); return s }(), nodeenrollment.WithActivationToken(tok))
+		if err != nil {
+			return nil, err
+		}
+		dup := proto.Clone(n.Creds).(*types.NodeCredentials)
+		dup.CertificateBundles = nil
+		dup.RegistrationNonce = fresh.RegistrationNonce
+		st, _ := inmem.New(w.Ctx)
+		if err := dup.Store(w.Ctx, st); err != nil {
+			return nil, err
+		}
+		p.store = st
+		p.opts = []nodeenrollment.Option{nodeenrollment.WithActivationToken(tok), nodeenrollment.WithExtraAlpnProtos([]string{marker})}
 	case "baseA", "baseB":
 		// a plain TLS client of the application (no library protocol), offering its own ALPN name
 		p.marker = map[string]string{"baseA": "app-proto", "baseB": "h2"}[kind] // both are in the non-bare base configuration's list
@@ -330,7 +353,7 @@ func (e *env) judge(p *party, d dialRes, results []hs.AcceptResult) (outcome str
 			return "auth", ownState, ownProtos
 		}
 		return "failed", ownState, ownProtos
-	case "rejected":
+	case "rejected", "tokenDup":
 		if mine == nil && d.err != nil {
 			return "rejected", true, true
 		}
@@ -492,16 +515,27 @@ func mix(op map[string]any, ln *Line, seed int64) {
 	}
 }
 
+// hung: some step of this process never returned (its goroutine is abandoned); whatever it holds may block every later
+// step, so those are not run (and not judged)
+var hung atomic.Bool
+
 func Run(bh Behaviour, seed int64) ([]Line, error) {
 	var lines []Line
 	for i, op := range bh.Ops {
 		ln := Line{Tr: bh.Id, I: i + 1, Op: op}
-		func() {
+		if hung.Load() {
+			ln.Res, ln.Obs.Msg = "setup-error", "not run: an earlier step of this process did not return"
+			lines = append(lines, ln)
+			continue
+		}
+		done := make(chan Line, 1)
+		go func(ln Line) {
 			defer func() {
 				if p := recover(); p != nil {
 					ln.Res = "panic"
 					ln.Obs.Msg = fmt.Sprint(p)
 				}
+				done <- ln
 			}()
 			s := world.Uint64Seed(seed, fmt.Sprintf("%s/%d", bh.Id, i))
 			switch str(op, "op") {
@@ -510,7 +544,15 @@ func Run(bh Behaviour, seed int64) ([]Line, error) {
 			case "Mix":
 				mix(op, &ln, s)
 			}
-		}()
+		}(ln)
+		select {
+		case ln = <-done:
+		case <-time.After(40 * time.Second):
+			// every dial has an 8 s deadline of its own: a step that is still running after 40 s is stuck inside the library
+			hung.Store(true)
+			ln.Res = "hung"
+			ln.Obs = Obs{AOutcome: "failed", BOutcome: "failed", AOwnState: true, BOwnState: true, AOwnProtos: true, BOwnProtos: true, Sentinel: true, Msg: "step did not return within 40 s"}
+		}
 		lines = append(lines, ln)
 	}
 	return lines, nil
